@@ -6,6 +6,8 @@ update unknowns are named by element identity and therefore shared).  Obligation
 for all values (hypotheses: A's linear-solve contract + both path conditions)."""
 import math
 
+import os
+
 import numpy as np
 import z3
 
@@ -205,6 +207,7 @@ def equiv_worker(job, ra, rb, fp_prefix, replay_kind, witnesses_fn=None, cells_f
     base = dict(nm0, **names)
     ws = witnesses_fn(base, p0, job) if witnesses_fn else [H.Witness(dict(base)), H.Witness(dict(base), kinds={"m": -0.6})]
     viol, errs = [], []
+    validated = 0
     # fixed-point mode: both descriptions are evaluated at the same state with a zero update; the
     # residual rows (not the Jacobians) and the reported values are compared
     stubs.CTX.spsolve_mode = 'fixed_point' if fixed_point else 'free'
@@ -230,6 +233,28 @@ def equiv_worker(job, ra, rb, fp_prefix, replay_kind, witnesses_fn=None, cells_f
                 errs.append("both runs raised %r" % (pa.exc,))
             continue
         (neta, na_pre), (netb, nb_pre) = pa.value, pb.value
+        # encoding validation (first witness, plain A description): rows and results of the symbolic run evaluated at the
+        # witness vs. a float run of the real code from the same state
+        def _plain(r_):
+            return not r_.pre_calls and r_.edit_fn is None and not r_.ident and not r_.fluid_kwargs and r_.havoc_xform is None \
+                and r_.x_xform is None and not r_.name_map
+        side = (ra, pa, neta) if _plain(ra) else (rb, pb, netb) if _plain(rb) else None
+        if wi == 0 and side is not None and not os.environ.get("SVX_NO_VALIDATE"):
+            import copy as _copy
+            rv, pside, nside = side
+            pv = _copy.copy(pside)
+            pv.value = nside
+            saved_ctx = (H.CTX.ident, H.CTX.havoc_xform, H.CTX.x_xform, H.CTX.name_map)
+            H.CTX.ident, H.CTX.havoc_xform, H.CTX.x_xform, H.CTX.name_map = rv.ident, None, None, None
+            try:
+                nv, badv = H.validate_against_impl(rv.spec, pv, rv.kw, rv.spec["fluid"] != "water", build_kwargs=rv.build_kwargs,
+                                                   fixed_point=fixed_point)
+                validated += 1 if nv else 0
+                errs += ["encoding validation: %s" % b_ for b_ in badv[:3]]
+            except Exception as e:   # noqa
+                errs.append("encoding validation raised %r" % (e,))
+            finally:
+                H.CTX.ident, H.CTX.havoc_xform, H.CTX.x_xform, H.CTX.name_map = saved_ctx
         # hypotheses: assumptions, both paths, A's linear-solve contract
         hy = list(A) + pa.facts + pb.facts + pa.path + pb.path + pa.assumed + pb.assumed + pa.defined + pb.defined
         hy_lin = hy + (pa.lin if not fixed_point else [])
@@ -303,7 +328,7 @@ def equiv_worker(job, ra, rb, fp_prefix, replay_kind, witnesses_fn=None, cells_f
                 job.setdefault("_inconclusive", []).append(lab)
     H.CTX.ident = {}
     stubs.CTX.spsolve_mode = 'free'
-    return finish_worker(job, exa_all, viol, errors=errs)
+    return finish_worker(job, exa_all, viol, errors=errs, validated=validated)
 
 
 def max_result_gap(neta, netb, row_map=None, rtol_floor=1e-12, cols_skip=()):
